@@ -322,7 +322,10 @@ impl ToInternedString for LiteralKind {
                 )
             }
             // `1e400` is read as infinity; Rust would print it as `inf`, which is an identifier.
-            Self::Num(num) if num.is_infinite() => "1e999".to_owned(),
+            // (the sign matters: the optimizer folds `-1 / 0` to the literal -Infinity)
+            Self::Num(num) if num.is_infinite() => {
+                if num > 0.0 { "1e999".to_owned() } else { "-1e999".to_owned() }
+            }
             Self::Num(num) => num.to_string(),
             Self::Int(num) => num.to_string(),
             Self::BigInt(ref num) => format!("{num}n"),
